@@ -113,7 +113,16 @@ def rule_cb2(A: Analysis, rep):
                     ok = gs == [frozenset({("none(%s)" % pv, False)})] and src == "self._ctx.task_index.get_task(%s).get_output_path(self._ctx)" % d
                     det = "pair (%s, %s), guard [%s]" % (norm(el.elts[0]), src, " | ".join(fmt_conj(c) for c in gs))
                 init = A.preceding_def(l, lst)
-                ok = ok and init is not None and norm(init) == "[]"
+                ok = ok and init is not None and norm(init) in ("[]", "list()")
+                # … and the list is this combine's own: created empty in the same worklist iteration on every path to the
+                # construction (a list created once per plan would be shared by all combine operations, each seeing the
+                # dependencies of the others)
+                inits = [n for n in g.nodes if n.kind == "stmt" and isinstance(n.ast, (ast.Assign, ast.AnnAssign)) and n.ast.value is not None
+                         and norm(n.ast.targets[0] if isinstance(n.ast, ast.Assign) else n.ast.target) == lst and norm(n.ast.value) in ("[]", "list()")]
+                own = bool(inits) and F.w.header is not None and g.all_paths_pass(F.w.header, cn, inits, skip_labels=lambda lb: is_exc(lb) or is_back(lb))
+                if ok and not own:
+                    ok = False
+                    det = "`%s` is not created empty inside the worklist iteration that constructs the combine operation: all combine operations of one plan share (and keep appending to) one list" % lst
     rep.check(ok, "CB2", "each dependency paired with its own selected output, in order, dropping only None", call,
               "(dep id, that dependency's get_output_path(ctx)) for every element of task.deps", det)
     kws = {k: norm(v) for k, v in A.kwmap(call).items()}
